@@ -355,6 +355,10 @@ def c16_batches(tier):
             bs.append(B("life-small-%s-%s" % (be, var), "life", be, var, (60 if q else 1500) * slow, maxn=9, nops=12, weight=30 if q else 300, max_procs=3, **extra))
             # large dimensions incl. n > N (memory heavy: few runs)
             bs.append(B("life-large-%s-%s" % (be, var), "life", be, var, (4 if q else 60) * slow, nops=6, membudget=120e6, weight=60 if q else 300, max_procs=2, det_count=1, **extra))
+            if var == "optim-asan" or not q:
+                for nn in (1025, 1100, 630):
+                    bs.append(B("life-n%d-%s-%s" % (nn, be, var), "life", be, var, 2 if q else 12, n=nn, nops=5, membudget=140e6, weight=40 if q else 200, max_procs=2,
+                                det_count=1, **extra))
             # the other scenarios under the sanitizers: gates, transport, faults, low-level clients, concurrency
             bs.append(B("gates-%s-%s" % (be, var), "gates", be, var, (30 if q else 600) * slow, spec="swarm:12", specpool=4, nkeys=1, stats=0, weight=20 if q else 200, max_procs=2))
             bs.append(B("io-%s-%s" % (be, var), "io", be, var, (40 if q else 800) * slow, spec="swarm:6", specpool=2, nkeys=1, weight=15 if q else 150, max_procs=2))
